@@ -141,7 +141,7 @@ def check(ctx):
                   detail="verify_token = eq(expected, actual) over whole operands")
         # a switch on a literal (`if false { .. }` left by a statically disabled log level) is not a data-dependent branch
         nsw = sum(1 for b in vb.blocks if b.term.kind == "switch" and not b.cleanup and not vb.is_noise(b.term)
-                  and flow.strip(van.switch_info(b.idx)[0])[0] != "const")
+                  and flow.strip(van.switch_info(b.idx)[0])[0] != "const" and not diagnostic_only_branch(vb, b.idx))
         ctx.check(nsw == 0, RC, "C01/token-compare/no-branches", vb.loc,
                   reason="unrecognised-implementation: verify_token has %d branches" % nsw, detail="straight-line")
     gb = ctx.body(r"^passage_protocol::crypto::generate_token$", rule=RC)
